@@ -115,7 +115,8 @@ type Cluster struct {
 	ProduceFaults []string
 	MetaFaults    []string
 	FetchFaults   []string
-	OffsetFaults  []string // ListOffsets: notleader (every block answered NOT_LEADER_FOR_PARTITION), drop
+	pairFault     map[int]string // doProduce with faultIdx -2: batch index -> fault
+	OffsetFaults  []string       // ListOffsets: notleader (every block answered NOT_LEADER_FOR_PARTITION), drop
 	// UrgentMetadata: a pending metadata request is answered before anything else happens (see gx.Actor.Urgent).
 	UrgentMetadata bool
 	// MetaDescending: metadata answers list a topic's partitions in descending order (the protocol promises no order)
